@@ -284,7 +284,7 @@ class Boom(Exception):
 def check_kw(use_type: bool, use_inst: bool, vals: int, validate: int, use_spec: bool, use_default: bool, tkind: int,
              x: int, c: int) -> bool:
     """vals: 0 none, 1 equal_to=c, 2 one_of=(c, c+2);  validate: 0 none, 1 pred, 2 [pred, pred2], 3 returns False,
-    4 raises;  tkind: target is 0 int x, 1 bool, 2 str, 3 subclass-of-int instance"""
+    4 raises, 5 returns None, 6 returns the (possibly falsy: 0, '') target, 7 list whose members return True, 0, '';  tkind: target is 0 int x, 1 bool, 2 str, 3 subclass-of-int instance"""
     start()
     if vals != 0 or validate in (1, 2):
         # the failure message formats target and operand (f-strings): values are realised -> (D)
@@ -294,7 +294,7 @@ def check_kw(use_type: bool, use_inst: bool, vals: int, validate: int, use_spec:
 
     class MyInt(int):
         pass
-    target = [x, x > 0, 'str', MyInt(3)][tkind]
+    target = [x, x > 0, 'str', MyInt(3), ''][tkind]
     kw = {}
     conds = []
     if use_type:
@@ -336,6 +336,12 @@ def check_kw(use_type: bool, use_inst: bool, vals: int, validate: int, use_spec:
     elif validate == 4:
         kw['validate'] = raiser
         conds.append(lambda v: False)
+    elif validate == 5:        # "If one or more return False or raise an exception, the Check will fail": None is not False
+        kw['validate'] = lambda v: None
+    elif validate == 6:        # a converter used as validator: returns 0 / '' / False-like values for some targets
+        kw['validate'] = lambda v: v if type(v) is not bool else int(v)
+    elif validate == 7:
+        kw['validate'] = [pred2, (lambda v: 0), (lambda v: '')]
     if not kw:
         conds.append(lambda v: bool(v))        # no condition at all: truthiness
     if use_default:
@@ -407,12 +413,12 @@ def obligations(tier):
                     pre = pre.replace('0 <= a1 < %d and ' % na, '').replace(' and 0 <= a1 < %d' % na, '')
                 obs.append(Ob(bool_tree, fixed=fx, pre=pre, name='bool_tree_r%d_l%d_ops%d' % (root, left, ops), timeout=300))
     for vals in range(3):
-        for validate in range(5):
-            pre = '0 <= tkind <= 3'
+        for validate in range(8):
+            pre = '0 <= tkind <= 4'
             if vals != 0 or validate in (1, 2):
                 pre += ' and -1 <= x <= 3 and 0 <= c <= 1'
             obs.append(Ob(check_kw, fixed={'vals': vals, 'validate': validate}, pre=pre,
-                          name='check_kw_v%d_val%d' % (vals, validate)))
+                          name='check_kw_v%d_val%d' % (vals, validate), timeout=240))
     obs.append(Ob(bool_step, fixed={'node': 1, 'n': 2, 'k2': 0}, pre='0 <= k0 <= 3 and 0 <= k1 <= 3', twin='step_err', name='bool_step_or_n2'))
     obs.append(Ob(bool_step, fixed={'node': 1, 'n': 2, 'k2': 0}, pre='0 <= k0 <= 3 and 0 <= k1 <= 3', twin='step_ok', name='bool_step_or_n2'))
     obs.append(Ob(m_atom, fixed={'op': 2}, pre='0 <= form <= 5', twin='m_false', name='m_atom_op2'))
